@@ -36,13 +36,10 @@ type Case struct {
 
 func genCase(t *rapid.T) Case {
 	c := Case{Tables: pgprog.GenTables(t, pgprog.AllKinds, "alice"), Reader: rapid.SampledFrom([]string{"owner", "nokeys"}).Draw(t, "reader")}
-	next := make([]int64, len(c.Tables))
-	for i := range next {
-		next[i] = 1
-	}
+	g := pgprog.NewGenState(c.Tables)
 	n := rapid.IntRange(1, 8).Draw(t, "nsteps")
 	for i := 0; i < n; i++ {
-		c.Steps = append(c.Steps, pgprog.GenStep(t, c.Tables, next, fmt.Sprintf("s%d", i)))
+		c.Steps = append(c.Steps, pgprog.GenProgStep(t, c.Tables, g, fmt.Sprintf("s%d", i)))
 		// sometimes execute an earlier prepared SELECT again, after other statements went through
 		var prepared []int
 		for j, st := range c.Steps {
@@ -257,6 +254,56 @@ func Check(c Case) (hx.Vs, map[string]bool, bool) {
 			}
 			return a
 		}
+		// a value that crosses the proxy towards a protected column, stored or not
+		noteWrite := func(col pgprog.ColSpec, v pgprog.Val) {
+			if tb.Configured && col.Protected() && !v.Null && len(v.B) > 0 {
+				wroteProtected = true
+				o.class("write:" + col.Kind)
+				// a masked column keeps a configured window in clear (C11 checks masks precisely)
+				if mk := pgprog.Marker(v); mk != nil && col.Kind != pgprog.KMask {
+					protectedMarkers = append(protectedMarkers, mk)
+				}
+			}
+		}
+		for _, n := range r.Notes {
+			o.class(st.Op + ":" + n)
+		}
+		matches := func(row []pgprog.Val) bool {
+			if st.WhereID != nil && string(row[0].B) != fmt.Sprint(*st.WhereID) {
+				return false
+			}
+			if w := st.Where; w != nil && (row[w.Col].Null || w.Val.Null || !bytes.Equal(row[w.Col].B, w.Val.B)) {
+				return false
+			}
+			return true
+		}
+		whereClass := func() {
+			switch w := st.Where; {
+			case w == nil && st.WhereID == nil:
+				o.class(st.Op + ":all-rows")
+			case w == nil || w.Col == 0:
+				o.class(st.Op + ":by-key")
+			default:
+				o.class(st.Op + ":by-" + tb.Cols[w.Col].Kind)
+			}
+		}
+		// the SET items of UPDATE / DO UPDATE: old = the existing row, proposed = the row offered for insertion
+		assign := func(old, proposed []pgprog.Val) []pgprog.Val {
+			nr := append([]pgprog.Val(nil), old...)
+			for _, a := range st.Assigns {
+				switch a.Kind {
+				case "default":
+					nr[a.Col] = pgprog.Val{Null: true}
+				case "column":
+					nr[a.Col] = old[a.Src]
+				case "excluded", "param-again":
+					nr[a.Col] = proposed[a.Src]
+				default:
+					nr[a.Col] = a.Val
+				}
+			}
+			return nr
+		}
 		switch st.Op {
 		case "insert":
 			cols := st.Cols
@@ -267,6 +314,15 @@ func Check(c Case) (hx.Vs, map[string]bool, bool) {
 			if len(st.Rows) > 1 {
 				o.class("insert:multi-row")
 			}
+			for _, a := range st.Assigns {
+				o.class("on-conflict:set-" + map[string]string{"": "value"}[a.Kind] + a.Kind)
+				if a.Kind == "" {
+					noteWrite(tb.Cols[a.Col], a.Val)
+					if tb.Configured && tb.Cols[a.Col].Protected() && st.Ext && !a.Lit {
+						o.class("on-conflict:protected-value")
+					}
+				}
+			}
 			var added [][]pgprog.Val
 			for _, row := range st.Rows {
 				full := make([]pgprog.Val, len(tb.Cols))
@@ -275,46 +331,82 @@ func Check(c Case) (hx.Vs, map[string]bool, bool) {
 				}
 				for i, cidx := range cols {
 					full[cidx] = row[i]
-					col := tb.Cols[cidx]
-					if tb.Configured && col.Protected() && !row[i].Null && len(row[i].B) > 0 {
-						wroteProtected = true
-						o.class("write:" + col.Kind)
-						// a masked column keeps a configured window in clear (C11 checks masks precisely)
-						if mk := pgprog.Marker(row[i]); mk != nil && col.Kind != pgprog.KMask {
-							protectedMarkers = append(protectedMarkers, mk)
-						}
+					noteWrite(tb.Cols[cidx], row[i])
+				}
+				if st.OnConflict == "" {
+					m.rows[st.Table] = append(m.rows[st.Table], full)
+					added = append(added, full)
+					continue
+				}
+				at := -1
+				for ri, have := range m.rows[st.Table] {
+					if sameVal(have[0], full[0]) {
+						at = ri
 					}
 				}
-				added = append(added, full)
+				multi := ""
+				if len(st.Rows) > 1 {
+					multi = "/multi-row"
+				}
+				switch {
+				case at < 0:
+					o.class("upsert:new-key" + multi)
+					m.rows[st.Table] = append(m.rows[st.Table], full)
+					added = append(added, full)
+				case st.OnConflict == "update":
+					o.class("upsert:existing-key" + multi)
+					nr := assign(m.rows[st.Table][at], full)
+					m.rows[st.Table][at] = nr
+					added = append(added, nr)
+				default:
+					o.class("upsert:existing-key-do-nothing" + multi)
+				}
 			}
-			m.rows[st.Table] = append(m.rows[st.Table], added...)
+			if st.OnConflict != "" {
+				o.class("on-conflict:" + st.OnConflict)
+			}
 			if len(rep.Errors) > 0 {
 				o.vs.Add("statement-error:insert", "step %d %.200s: %q", si, r.SQL, rep.Errors)
 			}
 			if len(st.Returning) > 0 {
 				o.class("returning")
+				if st.OnConflict != "" {
+					o.class("upsert:returning")
+				}
 				o.checkRows("insert-returning", tb, st.Returning, added, rep, resFmt, true)
 			}
 		case "update":
+			whereClass()
+			for i, cidx := range st.Set {
+				noteWrite(tb.Cols[cidx], st.SetVals[i])
+			}
+			nvalues := len(st.Set)
+			for _, a := range st.Assigns {
+				if a.Kind == "" {
+					noteWrite(tb.Cols[a.Col], a.Val)
+					nvalues++
+				} else {
+					o.class("update:set-" + a.Kind)
+				}
+			}
+			if nvalues > 0 && nvalues < len(st.Set)+len(st.Assigns) {
+				o.class("update:values-mixed-with-default-or-column")
+			}
 			var touched [][]pgprog.Val
 			for ri, row := range m.rows[st.Table] {
-				if st.WhereID != nil && string(row[0].B) != fmt.Sprint(*st.WhereID) {
+				if !matches(row) {
 					continue
 				}
 				nr := append([]pgprog.Val(nil), row...)
 				for i, cidx := range st.Set {
 					nr[cidx] = st.SetVals[i]
-					col := tb.Cols[cidx]
-					if tb.Configured && col.Protected() && !st.SetVals[i].Null && len(st.SetVals[i].B) > 0 {
-						wroteProtected = true
-						o.class("write:" + col.Kind)
-						if mk := pgprog.Marker(st.SetVals[i]); mk != nil && col.Kind != pgprog.KMask {
-							protectedMarkers = append(protectedMarkers, mk)
-						}
-					}
 				}
+				nr = assign(nr, nil)
 				m.rows[st.Table][ri] = nr
 				touched = append(touched, nr)
+			}
+			if len(touched) > 0 && st.Where != nil && st.Where.Col != 0 {
+				o.class("update:matched-by-" + tb.Cols[st.Where.Col].Kind)
 			}
 			if len(rep.Errors) > 0 {
 				o.vs.Add("statement-error:update", "step %d %.200s: %q", si, r.SQL, rep.Errors)
@@ -322,6 +414,71 @@ func Check(c Case) (hx.Vs, map[string]bool, bool) {
 			if len(st.Returning) > 0 {
 				o.class("returning")
 				o.checkRows("update-returning", tb, st.Returning, touched, rep, resFmt, true)
+			}
+		case "delete":
+			whereClass()
+			var keep, gone [][]pgprog.Val
+			for _, row := range m.rows[st.Table] {
+				if matches(row) {
+					gone = append(gone, row)
+				} else {
+					keep = append(keep, row)
+				}
+			}
+			m.rows[st.Table] = keep
+			if len(gone) > 0 {
+				o.class("delete:matched")
+				if st.Where != nil && st.Where.Col != 0 {
+					o.class("delete:matched-by-" + tb.Cols[st.Where.Col].Kind)
+				}
+			}
+			if len(rep.Errors) > 0 {
+				o.vs.Add("statement-error:delete", "step %d %.200s: %q", si, r.SQL, rep.Errors)
+			}
+			if len(st.Returning) > 0 {
+				o.class("returning")
+				o.class("delete:returning")
+				if wroteProtected && len(gone) > 0 {
+					readAfter = true
+				}
+				o.checkRows("delete-returning", tb, st.Returning, gone, rep, resFmt, true)
+			}
+		case "insert-select":
+			src := c.Tables[st.SrcTable]
+			if st.SrcTable == st.Table {
+				o.class("insert-select:same-table")
+			} else {
+				o.class("insert-select:other-table")
+			}
+			var added [][]pgprog.Val
+			for _, row := range append([][]pgprog.Val(nil), m.rows[st.SrcTable]...) {
+				if st.WhereID != nil && string(row[0].B) != fmt.Sprint(*st.WhereID) {
+					continue
+				}
+				full := make([]pgprog.Val, len(tb.Cols))
+				for i := range full {
+					full[i] = pgprog.Val{Null: true}
+				}
+				full[0] = pgprog.Val{B: []byte(fmt.Sprint(st.NewID))}
+				for i := 1; i < len(st.Cols) && i < len(st.SrcCols); i++ {
+					full[st.Cols[i]] = row[st.SrcCols[i]]
+					if tb.Configured && tb.Cols[st.Cols[i]].Protected() && !row[st.SrcCols[i]].Null && len(row[st.SrcCols[i]].B) > 0 {
+						o.class("insert-select:copied-protected")
+					}
+				}
+				m.rows[st.Table] = append(m.rows[st.Table], full)
+				added = append(added, full)
+			}
+			if len(added) > 0 {
+				o.class("insert-select:copied-row")
+			}
+			_ = src
+			if len(rep.Errors) > 0 {
+				o.vs.Add("statement-error:insert-select", "step %d %.200s: %q", si, r.SQL, rep.Errors)
+			}
+			if len(st.Returning) > 0 {
+				o.class("returning")
+				o.checkRows("insert-select-returning", tb, st.Returning, added, rep, resFmt, true)
 			}
 		case "select":
 			cols := st.Cols
@@ -334,7 +491,7 @@ func Check(c Case) (hx.Vs, map[string]bool, bool) {
 			}
 			var want [][]pgprog.Val
 			for _, row := range m.rows[st.Table] {
-				if st.WhereID != nil && string(row[0].B) != fmt.Sprint(*st.WhereID) {
+				if !matches(row) {
 					continue
 				}
 				want = append(want, row)
@@ -392,6 +549,13 @@ func Check(c Case) (hx.Vs, map[string]bool, bool) {
 		for i, ci := range st.Set {
 			if !tb.Configured || !tb.Cols[ci].Protected() || tb.Cols[ci].Kind == pgprog.KMask {
 				if mk := pgprog.Marker(st.SetVals[i]); mk != nil {
+					clear[string(mk)] = true
+				}
+			}
+		}
+		for _, a := range st.Assigns {
+			if !tb.Configured || !tb.Cols[a.Col].Protected() || tb.Cols[a.Col].Kind == pgprog.KMask {
+				if mk := pgprog.Marker(a.Val); mk != nil {
 					clear[string(mk)] = true
 				}
 			}
